@@ -12,7 +12,7 @@ rejected at compile time.
 """
 import json
 from nv.framework import Check, pmap, sha, harness_fail
-from nv import loader, progs, cbuild, strprogs
+from nv import loader, progs, cbuild, strprogs, conform
 from nv.am import AM, Malformed
 from checks import c02
 
@@ -52,6 +52,17 @@ def check_item(item):
             line = next((l for l in err.splitlines() if "ERROR" in l or "runtime error" in l or "SUMMARY" in l), err[-200:])
             res["problems"].append(dict(kind=kind, what="%s: %s" % (status, line.strip()[:300])))
             return res
+        # outputs against the abstract machine on witness inputs (length counter == bytes stored; overflow raised instead of stored)
+        try:
+            am = AM(acc.dctx)
+            wits = conform.am_witnesses(am, reps[:7], limit=12, maxlen=16) + [bytes([reps[0]]) * 6, bytes(reps[:3]) * 3]
+            for w in wits:
+                prob, n = conform.replay_input(cp, am, w, end=eof, chunkings=("one",))
+                if prob:
+                    res["problems"].append(dict(kind="outputs", what=prob[:300]))
+                    break
+        except Malformed:
+            pass
         for r in recs:
             res["strings"] += r[1]["strings"]
             res["feeds"] += r[1]["feeds"]
